@@ -395,8 +395,8 @@ def known_match(known, mode, klen, d, h):
 # one pass over the whole domain with one set of material / one placement
 # ------------------------------------------------------------------------------------------------
 class Pass:
-    def __init__(self, env, seed, inplace, batch=1):
-        self.env, self.seed, self.inplace, self.batch = env, seed, inplace, batch
+    def __init__(self, env, seed, inplace, batch=1, mix=None):
+        self.env, self.seed, self.inplace, self.batch, self.mix = env, seed, inplace, batch, mix
         self.M = Material(seed)
         self.dis = []          # disagreements
         self.stats = collections.Counter()
@@ -425,6 +425,13 @@ class Pass:
         items = {c: self.item(c) for c in cells}
         k1cells = [c for c in cells if c[0] not in AUX_CIPHERS and c[3] not in AUX_HASHES]
         auxcells = [c for c in cells if c[0] in AUX_CIPHERS or c[3] in AUX_HASHES]
+        if self.mix:
+            # jobs in flight together share one scheduler (mix="hash": same hash algorithm, random cipher / key size /
+            # direction / chain order; mix="cipher": the converse), so that a job handed back by the shared scheduler
+            # inside another suite's submit call still has a stage to run, with different dispatch-table indices
+            import hashlib
+            rk = lambda c: hashlib.sha256(("%d:%s" % (self.seed, c)).encode()).digest()
+            k1cells.sort(key=(lambda c: (c[3], rk(c))) if self.mix == "hash" else (lambda c: (c[0], c[1], c[2], rk(c))))
         tagname = "s%d_%s" % (self.seed, "ip" if self.inplace else "oop")
         # ---- pre-flight: the cipher-only and hash-only rows alone, one process per variant.  A row that crashes or
         # hangs (60 s watchdog of k1_algo per job) is reported and its cells are left out of the full sweep, which
@@ -891,9 +898,13 @@ def main(tier, seed):
     env["acc"], env["idx"] = acc, idx
     C = env["C"]
     domain = list(all_cells(C))
-    passes = [Pass(env, seed, True)]
+    # the batched passes put consecutive cells (same cipher and hash, both chain orders, then the next hash) into one
+    # manager at the same time: jobs of different suites are in flight together and come back through the
+    # resubmit path of another suite's submit call
+    passes = [Pass(env, seed, True), Pass(env, seed + 1, True, batch=16, mix="hash")]
     if tier != "quick":
-        passes += [Pass(env, seed, False), Pass(env, seed + 1, True, batch=16), Pass(env, seed + 2, False, batch=7)]
+        passes += [Pass(env, seed, False), Pass(env, seed + 2, False, batch=7, mix="cipher"), Pass(env, seed + 3, True, batch=40, mix="hash"),
+                   Pass(env, seed + 4, True, batch=16)]
     dis, stats = [], collections.Counter()
     if env["init_failure"]:
         # nothing can be run: every init_mb_mgr_* goes through the power-up self test, i.e. through the tables under test
@@ -940,7 +951,7 @@ def main(tier, seed):
         "rule": "one evaluation = one (cell, variant, entry point, pass) result checked against validation, model, composition of the "
                 "library's own cipher-only and hash-only jobs, job-vs-burst; distinct non-trivial = cells the full check accepts "
                 "(each executes at least one real kernel or the documented NULL/NULL pass-through)",
-        "passes": [dict(seed=p.seed, inplace=p.inplace, batch=p.batch) for p in passes],
+        "passes": [dict(seed=p.seed, inplace=p.inplace, batch=p.batch, mix=p.mix) for p in passes],
         "counters": dict(stats), "disagreement_kinds": dict(kinds),
         "known_finding_hits": {re.search(r"key=(\S+)", k).group(1): v for k, v in hits.items()},
         "samples": [item_line(Pass(env, seed, True).item(c))[:260] for c in ((1, 24, 2, 4, 2), (14, 32, 1, 22, 1), (5, 16, 1, 9, 1))],
